@@ -258,7 +258,10 @@ class C03(Harness):
                 out["refused"] = False
             except NotImplementedError:
                 out["refused"] = True
+        del log[:]
         p = f.predict() if inp["fh_in_fit"] else f.predict(fh)
+        # stub members of composites report the cutoff they forecast from and the time points they were asked for
+        out["member_predicts"] = [[e["who"], e["cutoff"], e["labels"]] for e in log if e.get("op") == "predict"]
         out["index"] = L(p.index)
         out["values"] = L(p.values)
         if k in ("reduce-direct", "reduce-dirrec", "reduce-multioutput") and not nb:
@@ -332,6 +335,11 @@ class C03(Harness):
                 P.eq("index-is-cutoff-plus-fh", lab, c + h)
             for a, b in zip(o["index"], o["index"][1:]):
                 P.check("index-increasing", a < b)
+            for who, mc, mlabs in o.get("member_predicts", []):
+                P.eq("index-is-cutoff-plus-fh", mc, c, {"what": "cutoff of a member forecaster at predict", "member": who})
+                if len(mlabs) == len(fh):
+                    for lab, h in zip(mlabs, fh):
+                        P.eq("index-is-cutoff-plus-fh", lab, c + h, {"what": "time points a member forecaster was asked for", "member": who})
             for v in o["values"]:
                 P.check("finite-values", not is_nan(v) and v is not None)
             if "first_targets" in o:
